@@ -7,6 +7,7 @@ CONSTANTS
   Dev_InternalActivityKeepsIdleFlag = TRUE
   Dev_IdleIgnoresMailbox = TRUE
   Dev_CancelBypassesLock = FALSE
+  Dev_SendSkipsLockWhenLoaded = FALSE
   WithCancel = FALSE
 INIT Init
 NEXT Next
